@@ -692,7 +692,7 @@ class _Expr(SymEval):
                 if not all(isinstance(a, str) for a in args):
                     raise NotSymbolic("regular expression applied to a non-constant")
                 return _prog_call(getattr(base, f.attr), *args)
-            if isinstance(base, (set, frozenset)) and f.attr in ("difference", "union", "intersection", "issubset", "issuperset", "symmetric_difference", "add", "copy", "isdisjoint"):
+            if isinstance(base, (set, frozenset)) and f.attr in ("difference", "union", "intersection", "issubset", "issuperset", "symmetric_difference", "add", "copy", "isdisjoint", "update", "discard", "remove", "clear", "difference_update", "intersection_update"):
                 return _prog_call(getattr(base, f.attr), *self._args(n))
             if isinstance(base, list) and f.attr in ("append", "extend", "index", "count", "copy", "insert", "pop", "reverse", "clear", "remove"):
                 return _prog_call(getattr(base, f.attr), *self._args(n))
@@ -830,6 +830,8 @@ class _Expr(SymEval):
                 if not seq:
                     raise Raised("ValueError")
                 return seq[order[0]] if f.id == "min" else seq[order[-1]] if not kwv.get("reverse") else seq[order[0]]
+            if f.id in ("list", "tuple", "dict", "set", "frozenset") and not n.args and not n.keywords and f.id not in self.env:
+                return {"list": list, "tuple": tuple, "dict": dict, "set": set, "frozenset": frozenset}[f.id]()
             if f.id in ("round", "min", "max", "sum", "str", "sorted", "list", "tuple", "dict", "set", "frozenset") and n.args and not n.keywords:
                 args = []
                 for a in n.args:
